@@ -559,6 +559,9 @@ class PlanJoinTablesQuery:
         if item.conditions:
             row_dict = {}
             for i, el in enumerate(item.conditions):
+                if len(el.args) == 2 and not isinstance(el.args[0], Identifier) and isinstance(el.args[1], Identifier):
+                    # 'x' = col
+                    el.args = [el.args[1], el.args[0]]
                 if isinstance(el.args[0], Identifier) and el.op == '=':
                     col_name = el.args[0].parts[-1]
                     if col_name.lower() == predict_target:
